@@ -304,7 +304,7 @@ def run_shard(spec, res):
             if '\t' in p:
                 # the tab written as the character itself inside the literal (it stands for itself, like any other character): texts with the tab and with a blank in its place
                 texts += [x.replace('\t', ' ') for x in texts if '\t' in x] + [x.replace('%', 'q').replace('_', 'z') for x in (p, p.replace('\t', ' '))]
-                cases.append({'query': 'select like(a1, %s)' % (quote + ''.join('\\' + c if c in (quote, '\\') else c for c in p) + quote), 'texts': texts, 'pattern': p})
+                cases.append({'query': 'select like(a1, %s)' % (quote + ''.join('\t' if c == '\t' else qast.lit(c, quote)[1:-1] for c in p) + quote), 'texts': texts, 'pattern': p})
                 res.count('literal_patterns_with_raw_tab')
                 continue
             cases.append({'query': 'select like(a1, %s)' % qast.lit(p, quote), 'texts': texts, 'pattern': p})
